@@ -9,9 +9,13 @@ META = dict(
                 "in every directory alone and followed by 1-2 segments, paths below files); the trees are built with boxo's "
                 "unixfs/io directories (HAMT fanout 8/16/256, names colliding in the first 16 murmur3 bits, \"0\", \"Links\", "
                 "\"Data\") and every query is resolved by the real basicResolver (ResolveToLastNode, ResolvePath, "
-                "ResolvePathComponents) over a blockservice fetcher with the go-unixfsnode reifier (G). Random deeper and "
+                "ResolvePathComponents) over a blockservice fetcher with the go-unixfsnode reifier (G). 'Returns the named "
+                "entry' is also checked on the returned VALUE: Use(tree, node) (entries listed, lookups of the probe names, "
+                "file bytes) is what every node returned by ResolvePath / ResolvePathComponents must give when it is used "
+                "after the call returned, over a block source that honours context cancellation (multi-block HAMT "
+                "directories and multi-block files load their blocks only then). Random deeper and "
                 "wider trees (up to 13 nodes, 700 entries) are recorded with all results and validated by TracePathResolve (T)."),
-    level_note=("Trusted: in-memory blockservice/dagservice, go-unixfsnode and go-ipld-prime traversal are part of the system "
+    level_note=("Trusted: in-memory blockservice/dagservice (blockstore wrapped to fail with ctx.Err() once the context is done), go-unixfsnode and go-ipld-prime traversal are part of the system "
                 "under test; projection = name-token pool and the CID<->node-id table (CIDs made unique per node). "
                 "Error kind for a path continuing below a FILE is not fixed by the property (only 'an error' is required)."),
     technique="TLA+ name-walk model; TLC-enumerated trees+queries replayed through the real resolver; recorded query traces validated by TLC",
@@ -19,7 +23,8 @@ META = dict(
 
 
 def run(ctx):
-    ctx.assumptions += ["in-memory blockservice returns the stored blocks",
+    ctx.assumptions += ["in-memory blockservice returns the stored blocks while the caller's context is live and ctx.Err() afterwards",
+                        "the caller's context stays live until it is done with the returned node(s)",
                         "names are valid single path segments (no '/', not '.' or '..', non-empty)"]
     ctx.cov["rule"] = ("G: all canonical trees with <= N nodes under the root (kinds b/h/f, filler widths, fanouts) x the "
                        "query set of each tree; T: random trees depth <= 4, 3-13 nodes, widths 0/30/300/700. "
@@ -53,11 +58,21 @@ def run(ctx):
         return
 
     def corrupt(rs):
+        bad = [dict(r) for r in rs]
+        if ctx.seed % 2 == 0:   # "the returned directory answers one lookup differently" must be rejected there
+            idx = [i for i, r in enumerate(rs) if r["ev"] == "Resolve" and r["ok"] and r["api"] == "path"
+                   and r.get("use", {}).get("kind") == "dir"]
+            if idx:
+                i = idx[len(idx) // 2]
+                u = dict(bad[i]["use"])
+                u["look"] = [list(p) for p in u["look"]]
+                u["look"][0][1] = -2 if u["look"][0][1] != -2 else -1
+                bad[i]["use"] = u
+                return bad, i
         idx = [i for i, r in enumerate(rs) if r["ev"] == "Resolve" and r["ok"] and r["api"] == "last" and r["segs"]]
         if not idx:
             return None, None
         i = idx[len(idx) // 2]
-        bad = [dict(r) for r in rs]
         bad[i]["target"] = 0 if bad[i]["target"] != 0 else 1     # "resolved to another node" must be rejected there
         return bad, i
     ctx.validate_trace("PathResolve", "TracePathResolve.tla", "TracePathResolve.cfg", recs,
